@@ -41,6 +41,9 @@ func init() {
 			o := cc.VerifC10Run(cc.VerifC10Spec{Names: in.Names, Senders: in.Senders, Client: in.Client})
 			b, _ := json.Marshal(o)
 			seen[string(b)] = o
+			if o.Running || o.Hang != "" {
+				break // already a violation; do not pay the polling window again
+			}
 		}
 		keys := make([]string, 0, len(seen))
 		for k := range seen {
